@@ -135,6 +135,7 @@ func execStandalone(t *testing.T, plan any, out *Outcome) {
 		},
 		beforeClient: func(e *env) {
 			muxRegReset(16)
+			richIdent.Store(true)
 			n := e.sim.W.AddNode(saPrimary)
 			n.AZ = "az-a"
 			for i, a := range saReplicas {
